@@ -11,7 +11,7 @@ import ast
 from .. import order
 from .. import terms as T
 from ..asyncrt import mentions
-from ..compiled import CompiledView, slot_elem
+from ..compiled import CompiledView, input_state_builds, slot_elem
 from ..report import AnalysisError, Check
 from ..symeval import SymEval
 
@@ -102,16 +102,15 @@ def rule_map(chk: Check, model, cv: CompiledView, rid: str):
             ok = el is not None and seqt == T.mk_attr(T.mk_index(el, T.ONE), "seq")
             chk.add(rid, "reader: no-op output at the slot's own sequence number", ok, f"no-op read at {T.show(seqt)[:120]}", chk.loc(fi, e.node))
     # the values read become the window payload, in window order, together with that window's seq / ts_sent / ts_recv
-    fo = [e for e in cv.update_inputs.events if e.kind == "call" and e.name == "rex.base.InputState.from_outputs"]
+    fo = input_state_builds(model, cv.update_inputs.events)
     f_ui = model.func("partition_runner.make_update_inputs._update_inputs")
     if len(fo) == 1 and readers:
-        e = fo[0]
+        e, b = fo[0]
         rd = [x for w, f, x in readers if w == "_update_inputs"]
         t = None
         if rd:
             buf = rd[0].args[0]
             t = T.mk_index(S("timings_node.windows"), buf[2]) if buf[0] == "index" else None
-        b = model.bind_call("base.InputState.from_outputs", e.args, e.kwargs)  # (arguments by parameter, however they were passed)
         ok = t is not None and (b.get("seq"), b.get("ts_sent"), b.get("ts_recv")) == (T.mk_attr(t, "seq"), T.mk_attr(t, "ts_sent"), T.mk_attr(t, "ts_recv")) \
             and b.get("outputs") == rd[0].term and b.get("is_data") == T.TRUE
         chk.add(rid, "window assembled from the mapped reads", ok, f"InputState.from_outputs gets {[(k, T.show(a)[:60]) for k, a in b.items()]}", chk.loc(f_ui, e.node))
@@ -330,9 +329,9 @@ def rule_sizes(chk: Check, model, rid: str):
     f_ii = model.func("node.BaseNode.init_inputs")
     ev = SymEval(model)
     r = ev.run_function(f_ii)
-    fo = [e for e in r.events if e.kind == "call" and e.name == "rex.base.InputState.from_outputs"]
-    ok = len(fo) == 1 and len(fo[0].args) >= 4 and fo[0].args[3][0] == "comp" and T.call_name(fo[0].args[3][2]).endswith(".output_node.init_output") \
-        and fo[0].args[3][3][0][1] == T.mk_call("range", [T.mk_attr(_conn_of(fo[0].args[3][2]), "window")])
+    fo = [b.get("outputs", T.NONE) for e, b in input_state_builds(model, r.events) if b.get("is_data", T.FALSE) != T.TRUE]
+    ok = len(fo) == 1 and fo[0][0] == "comp" and T.call_name(fo[0][2]).endswith(".output_node.init_output") \
+        and fo[0][3][0][1] == T.mk_call("range", [T.mk_attr(_conn_of(fo[0][2]), "window")])
     chk.add(rid, "default windows hold the producer's init_output", bool(ok), "init_inputs must fill each window with `window` copies of the producer's init_output", chk.loc(f_ii))
 
 
